@@ -369,6 +369,12 @@ pub(crate) fn pre_move_direct() -> (Board, sp::Pos, ChessMove, sp::Mv) {
 /// the opponent king; pinned is empty; checkers are exactly the mover's knights and pawns attacking that king
 pub(crate) fn check_direct(r: &Board) {
     let rp = to_pos(r);
+    if !crate::vstubs::under_stubs() {
+        // native replay of a counterexample (no stand-ins, the real scan ran): the stand-in-free statement
+        let (ch, pin) = sp::s_check_pin(&rp);
+        assert!(r.checkers.0 == ch && r.pinned.0 == pin);
+        return;
+    }
     let k = rp.king_sq(rp.stm);
     let e = rp.colors[1 - rp.stm];
     unsafe {
@@ -383,6 +389,7 @@ pub(crate) fn check_direct(r: &Board) {
 #[kani::unwind(9)]
 #[kani::stub(crate::magic::get_bishop_rays, crate::vstubs::rec_bishop_rays)]
 #[kani::stub(crate::magic::get_rook_rays, crate::vstubs::rec_rook_rays)]
+#[kani::stub(crate::vstubs::under_stubs, crate::vstubs::under_stubs_yes)]
 #[kani::stub(crate::magic::get_knight_moves, crate::vstubs::knight_moves_cf)]
 #[kani::stub(crate::magic::get_pawn_attacks, crate::vstubs::pawn_attacks_cf)]
 fn c02_mmn_direct_checks() {
@@ -397,6 +404,7 @@ fn c02_mmn_direct_checks() {
 #[kani::unwind(9)]
 #[kani::stub(crate::magic::get_bishop_rays, crate::vstubs::rec_bishop_rays)]
 #[kani::stub(crate::magic::get_rook_rays, crate::vstubs::rec_rook_rays)]
+#[kani::stub(crate::vstubs::under_stubs, crate::vstubs::under_stubs_yes)]
 #[kani::stub(crate::magic::get_knight_moves, crate::vstubs::knight_moves_cf)]
 #[kani::stub(crate::magic::get_pawn_attacks, crate::vstubs::pawn_attacks_cf)]
 fn c02_mm_direct_checks() {
